@@ -254,8 +254,9 @@ func Scenarios() []scenario {
 		w.AddUserProp("k", "v")
 		c := mq.NewConnect()
 		c.SetClientID("cid")
+		c.AddUserProp("ck", "cv")
 		c.SetWill(w)
-		return []any{c, w}, [][]thrOp{{opWrite("connect", c), opString("connect", c)}, {opWrite("will", w), opString("will", w), opAcc("will", w)}}
+		return []any{c, w}, [][]thrOp{{opWrite("connect", c), opString("connect", c), opDump("connect", c)}, {opWrite("will", w), opString("will", w), opAcc("will", w)}}
 	}})
 	// wills whose own flags and the connect flags may disagree (QoS 3 is
 	// settable on a PUBLISH but has no place in the connect flags; QoS and
@@ -627,6 +628,31 @@ func c13Monitor(t byte, vec gen.Vec, op string, gateOK, zero bool) (*core.Findin
 		Detail: fmt.Sprintf("%s: %s writes shared state (packet graph or package-level variable), first seen %s; two goroutines running it on the same packet race", desc, op, at)}, steps
 }
 
+// c13MonitorContent: the rich packet of type t with content ci in field si.
+func c13MonitorContent(t byte, si, ci int, op string, gateOK bool) (*core.Finding, int64) {
+	resetGlobals()
+	all := gen.AllContents()
+	if ci >= len(all) {
+		return nil, 0
+	}
+	p := gen.WithSiteContent(denseBase(t, 0), si, all[ci])
+	if p == nil {
+		return nil, 0
+	}
+	q, err, res := buildGuarded(p)
+	if err != nil || res.Panic != "" {
+		return nil, 0
+	}
+	roots := append([]any{q}, globalsRoots()...)
+	at, steps := monitorOp(roots, func() { c11Apply(q, op) })
+	if at == "" || !gateOK {
+		return nil, steps
+	}
+	ss := gen.Sites(denseBase(t, 0))
+	return &core.Finding{Class: "shared-write/content/" + op + "/" + gen.Schemas[t].Name, Sig: map[string]string{"op": op, "type": gen.Schemas[t].Name},
+		Detail: fmt.Sprintf("%s rich with %s = %q: %s writes shared state (packet graph or package-level variable), first seen %s; two goroutines running it on the same packet race", gen.Schemas[t].Name, ss[si].Name, all[ci], op, at)}, steps
+}
+
 // c13MonitorDecoded: the shared packet is the one ReadPacket returns for frame.
 func c13MonitorDecoded(frame []byte, op string, gateOK bool) (*core.Finding, int64) {
 	resetGlobals()
@@ -743,6 +769,34 @@ func runC13(x *core.Ctx) {
 					x.Report(f, func() core.Case {
 						return core.Case{Harness: "c13.monitor.decoded", Frame: hexOf(fr), Params: map[string]any{"op": op}}
 					}, func() *core.Finding { g, _ := c13MonitorDecoded(fr, op, true); return g })
+				}
+			}
+		}
+	}
+	// monitor over the rich packet of every type with every special and mined
+	// content in every string field (a renderer that tidies up what it prints
+	// may do so in the packet's own memory)
+	for _, ty := range allTypes {
+		ns := len(gen.Sites(denseBase(ty, 0)))
+		for si := 0; si < ns; si++ {
+			if !x.Mine() {
+				continue
+			}
+			if x.Expired() {
+				return
+			}
+			for ci := range gen.AllContents() {
+				for _, op := range []string{"WriteTo", "String", "Dump"} {
+					f, steps := c13MonitorContent(ty, si, ci, op, gateOK)
+					x.Eval("monitor.contents." + op)
+					x.R.States += steps
+					x.R.Transitions += steps
+					if f != nil {
+						ty, si, ci, op := ty, si, ci, op
+						x.Report(f, func() core.Case {
+							return core.Case{Harness: "c13.monitor.content", Params: map[string]any{"type": int(ty), "si": si, "ci": ci, "op": op}}
+						}, func() *core.Finding { g, _ := c13MonitorContent(ty, si, ci, op, true); return g })
+					}
 				}
 			}
 		}
@@ -917,6 +971,9 @@ func runC13(x *core.Ctx) {
 
 func replayC13(c core.Case) *core.Finding {
 	switch c.Harness {
+	case "c13.monitor.content":
+		f, _ := c13MonitorContent(byte(paramInt(c.Params, "type")), paramInt(c.Params, "si"), paramInt(c.Params, "ci"), paramStr(c.Params, "op"), true)
+		return f
 	case "c13.monitor.decoded":
 		f, _ := c13MonitorDecoded(unhex(c.Frame), paramStr(c.Params, "op"), true)
 		return f
